@@ -9,7 +9,7 @@ every output port and cycle, with the PyMTL simulation and the IR reference.
 The text must parse, define every instantiated module, and give every variable
 bit exactly one driver.
 """
-from vt import ir, irgen, exprfam, structfam, ifcfam, trcheck
+from vt import ir, irgen, exprfam, structfam, ifcfam, stmtfam, trcheck
 from vt.acc import Acc, MachineryError
 from vt.checks import c01
 
@@ -21,6 +21,8 @@ ASSUMPTIONS = [
   "which implements IEEE 1800-2017 clause 11 sizing (self-/context-determined operands, casts, concatenation) and is unsigned-only; constructs outside the subset are a machinery error, not a verdict",
   "the interpreter is calibrated three ways: PyMTL simulation, the independent IR reference (vt/irref.py) and the interpreted text must all agree (any PyMTL-vs-reference disagreement is a machinery error)",
   "designs the backend refuses to translate are outside the property (counted); syntactic validity is decided for the subset grammar only",
+  "hand-written statement family (vt/stmtfam.py, 50 designs): each has its own reference function in plain ints; a disagreement between the reference and the PyMTL simulation is a machinery error, "
+  "the interpreted text is compared with both on two input sequences of 336 and 120 steps",
   "inputs: all input vectors (thinned to 24 sequences for sequential E2 designs, 96 vectors for the expression family)",
 ]
 
@@ -38,11 +40,17 @@ def work(tier):
   W += [("ex", i) for i in range(len(expr_items(tier)))]
   W += [("sp", name) for name, d in structfam.designs()]
   W += [("cls", name) for name in ifcfam.DESIGNS]
+  W += [("st", name) for name in stmtfam.DESIGNS]
   return W
 
 
 def shards(tier):
   return [(i, 64) for i in range(64)]
+
+
+def run_stmt(key, backend, acc):
+  prefix = f"{backend}:struct-behavioral" if key in stmtfam.STRUCT_BEHAVIORAL else f"{backend}:stmt"
+  return trcheck.check_class_ref(key, stmtfam.DESIGNS[key], backend, acc, stmtfam.sequences(), stmtfam.REF[key], sig_prefix=prefix)
 
 
 def run_one(kind, key, tier, acc, backend):
@@ -52,6 +60,8 @@ def run_one(kind, key, tier, acc, backend):
     return trcheck.check_ir_design(key, d, backend, seqs, acc, backend)
   if kind == "cls":
     return trcheck.check_class(key, ifcfam.DESIGNS[key], backend, acc, trcheck.class_vectors)
+  if kind == "st":
+    return run_stmt(key, backend, acc)
   if kind == "sp":
     d = dict(structfam.designs())[key]
     return trcheck.check_ir_design(key, d, backend, structfam.input_seqs(d), acc, backend)
@@ -84,6 +94,9 @@ def run_shard(shard, tier, seed, backend=None):
 
 def replay(case, backend=None):
   acc = Acc()
+  if case.get("kind") == "stmt":
+    run_stmt(case["design"], case.get("backend", backend or BACKEND), acc)
+    return [(v["sig"], v["expected"], v["observed"], v["msg"]) for v in acc.violations][:3]
   if case.get("kind") == "class":
     b = case.get("backend", backend or BACKEND)
     trcheck.check_class(case["design"], ifcfam.DESIGNS[case["design"]], b, acc, trcheck.class_vectors)
